@@ -93,11 +93,9 @@ package networkconnector
 //@   loop 2: invariant -1 <= rangeindex && rangeindex < len(table) && c30Square(table) && c30RowsDistinct(table) && c30DistLe(table, 2 * len(table)) && c30DiagZero(table) && c30OffDiagPos(table) && c30HopWF(table) && c30HopLocal(table)
 //@   loop 2: invariant forall i in 0..len(table) :: forall j in 0..len(table) :: table[i][j].distance <= old(table[i][j].distance)
 //@   loop 2: invariant forall i in 0..len(table) :: table[i][i].nextHop == old(table[i][i].nextHop)
-// ground instances at the cell written last (so that a broken update yields a counterexample, not a quantifier time-out)
+// ground instance at the cell written last
 //@   label C30.fw.cell.hoplocal
 //@   loop 2: invariant rangeindex >= 0 ==> (table[i][rangeindex].nextHop != nil ==> table[i][rangeindex].nextHop.LocalNode == table[i][i].src)
-//@   label C30.fw.cell.mono
-//@   loop 2: invariant rangeindex >= 0 ==> table[i][rangeindex].distance <= old(table[i][rangeindex].distance)
 
 // findRemote: a copy of the FIRST link of l that leads to node t, or nil when no link does.
 //@ fn findRemote
